@@ -129,7 +129,7 @@ Definition libraries_full : Prop :=
     query_libraries s o fuel [it] rec inside pats = WOk res ->
     forall e, In e res <->
       (reachA_libraries s it e \/ reachB_libraries s rec inside it e) /\
-      sel_match (q_case o) (q_re o) (key_of s (q_key o)) pats e = true /\ q_cb o e = true.
+      sel_match (q_case o) (q_re o) (key_of s (q_key o)) (fold_of s (q_key o)) pats e = true /\ q_cb o e = true.
 
 Theorem libraries_full_holds : libraries_full.
 Proof. intros s o fuel it rec inside pats res W HL Hp H. exact (query_libraries_spec s W o fuel it rec inside pats res HL Hp H). Qed.
